@@ -342,7 +342,6 @@ package j5schema
 //@ func (*ObjectProperty).ToJ5Proto
 //@   frame fresh E:*github.com/pentops/j5/gen/j5/schema/v1/schema_j5pb.ObjectProperty
 
-
 // ---- schema field walk (C16) ---------------------------------------------------------------------------
 // The walk keeps the set of schemas on the current path (a map handed down the recursion); its
 // nil safety depends on what the arbitrary callback leaves of the schema graph and is not swept.
